@@ -161,6 +161,14 @@ impl SyncTable {
                     is_transfer_target: false,
                     claimed_twice: false,
                 });
+                #[cfg(feature = "verif-hooks")]
+                crate::verif::proto(
+                    "sync_claim",
+                    Some(DatabaseKeyIndex::new(self.ingredient, key_index)),
+                    None,
+                    [crate::verif::current_tid(), 0, 0, 0],
+                    "",
+                );
                 ClaimResult::Claimed(ClaimGuard {
                     key_index,
                     zalsa,
@@ -245,6 +253,15 @@ impl SyncTable {
                 *id = SyncOwner::Thread(thread_id);
                 *claimed_twice = true;
 
+                #[cfg(feature = "verif-hooks")]
+                crate::verif::proto(
+                    "sync_claim_transferred",
+                    Some(database_key_index),
+                    None,
+                    [crate::verif::tid(thread_id), 0, 0, 0],
+                    "ImTheOwner",
+                );
+
                 Ok(ClaimResult::Claimed(ClaimGuard {
                     key_index,
                     zalsa,
@@ -266,6 +283,14 @@ impl SyncTable {
                     is_transfer_target: false,
                     claimed_twice: false,
                 };
+                #[cfg(feature = "verif-hooks")]
+                crate::verif::proto(
+                    "sync_claim_transferred",
+                    Some(database_key_index),
+                    None,
+                    [crate::verif::tid(thread_id), 0, 0, 0],
+                    "Released",
+                );
                 Ok(ClaimResult::Claimed(ClaimGuard {
                     key_index,
                     zalsa,
@@ -411,6 +436,20 @@ impl<'me> ClaimGuard<'me> {
             ..
         } = state;
 
+        #[cfg(feature = "verif-hooks")]
+        crate::verif::proto(
+            "sync_release",
+            Some(self.database_key_index()),
+            None,
+            [
+                crate::verif::current_tid(),
+                anyone_waiting as u64,
+                is_transfer_target as u64,
+                claimed_twice as u64,
+            ],
+            wait_result.verif_name(),
+        );
+
         if !anyone_waiting {
             return;
         }
@@ -441,6 +480,14 @@ impl<'me> ClaimGuard<'me> {
         if state.get().claimed_twice {
             state.get_mut().claimed_twice = false;
             state.get_mut().id = SyncOwner::Transferred;
+            #[cfg(feature = "verif-hooks")]
+            crate::verif::proto(
+                "sync_release_self",
+                Some(self.database_key_index()),
+                None,
+                [crate::verif::current_tid(), 0, 0, 0],
+                "",
+            );
         } else {
             self.release(state.remove().0, WaitResult::Completed);
         }
@@ -491,6 +538,15 @@ impl<'me> ClaimGuard<'me> {
 
         *id = SyncOwner::Transferred;
         *claimed_twice = false;
+
+        #[cfg(feature = "verif-hooks")]
+        crate::verif::proto(
+            "sync_transfer",
+            Some(self_key),
+            Some(new_owner),
+            [crate::verif::current_tid(), 0, 0, 0],
+            "",
+        );
 
         self.zalsa
             .runtime()
